@@ -9,6 +9,15 @@
 //   sweepc <seed> <nblocks> | dumpc <seed> <lo> <hi>
 //   seq                      (stdin: W / R lines, see the driver)
 //   residue <seed> <ndraws> <nseeds>   nextf(a,b) interval + sampler measurements
+//   rangeExact <seed> <ndraws> <sweep>  nextf(a,b) BIT-EQUAL to a*(1-f)+b*f with f from a COPY of the generator, states equal
+//                                      afterwards; endpoint classes grid / adjacent / equal / symmetric / extreme;
+//                                      Rand32: all 2^23 values of f for <sweep> special pairs (state planted by memcpy)
+//   determinism <seed> <nseeds>        init()/constructors in storage with different prior contents, re-init after use,
+//                                      default constructor arguments
+//   script                             the real sampler templates with a SCRIPTED generator as `Rand` on lattices of
+//                                      candidates (loop decisions, draws consumed, returned value)
+//   gaussLattice                       `G kx ky iterations` lines of gaussRand on the lattice (k/8)^2, diffed against the
+//                                      hand model Field.gaussRandLoop evaluated in Lean at Rat
 #include <ImathRandom.h>
 #include <ImathVec.h>
 #include <stdlib.h>
@@ -19,9 +28,11 @@
 #include <cfloat>
 #include <string>
 #include <vector>
+#include <map>
 #include <sstream>
 #include <iostream>
 #include <limits>
+#include <new>
 
 namespace IM = IMATH_INTERNAL_NAMESPACE;
 
@@ -63,7 +74,7 @@ struct Glibc
     {
         ++calls;
         double diff = (a - b) * 4503599627370496.0; // exact: both are multiples of 2^-52 in [0,1)
-        if (diff < 0) { ++dbl_negative; }
+        if (diff < 0) { ++dbl_negative; show ("dbl-below-posix", st, call, d2u (a), d2u (b)); }
         if (!(std::fabs (a - b) < 3.5527136788005009e-15 /* 2^-48 */) || !(a >= 0 && a < 1) || !(b >= 0 && b < 1))
         {
             ++dbl_out_of_tol;
@@ -374,6 +385,452 @@ static void unitResidue (uint64_t seed, int nseeds, int per)
             (unsigned long long) d2u (dmax));
 }
 
+
+// ---------------------------------------------------------------- nextf(a,b) == a*(1-f)+b*f, bit for bit
+template <class T> static bool sameBitsT (T a, T b)
+{
+    if (a != a && b != b) return true;
+    return memcmp (&a, &b, sizeof (T)) == 0;
+}
+template <class T> struct Pair { T a, b; const char* cls; };
+
+template <class T> static std::vector<Pair<T>> endpointPairs ()
+{
+    typedef std::numeric_limits<T> L;
+    const T inf = L::infinity ();
+    std::vector<T> grid = {T (0), -T (0), T (1), T (-1), L::min (), -L::min (), L::denorm_min (), -L::denorm_min (),
+                           L::max (), -L::max (), L::max () / 2, -L::max () / 2, T (3), T (-3), T (1) + L::epsilon (),
+                           T (1) - L::epsilon () / 2, T (0.1), T (-0.1), T (16777216.0), T (1e30), T (-1e30), T (1e-30),
+                           std::nextafter (L::max (), T (0)), T (7) * L::min ()};
+    std::vector<Pair<T>> out;
+    for (T a : grid) for (T b : grid) out.push_back ({a, b, "grid"});
+    std::vector<T> mags = {L::denorm_min (), T (5) * L::denorm_min (), L::min (), T (1.5) * L::min (), T (1e-30), T (0.1), T (0.5), T (0.75),
+                           T (1), T (1) + L::epsilon (), T (2), T (3), T (1000.5), T (16777216.0), T (1e30), L::max () / 4, L::max () / 2,
+                           std::nextafter (L::max (), T (0))};
+    for (T m : mags)
+        for (int sg = 0; sg < 2; ++sg)
+        {
+            T a = sg ? -m : m;
+            T up = std::nextafter (a, inf), dn = std::nextafter (a, -inf);
+            out.push_back ({a, up, "adjacent"}); out.push_back ({up, a, "adjacent"});
+            out.push_back ({a, dn, "adjacent"}); out.push_back ({dn, a, "adjacent"});
+            out.push_back ({a, std::nextafter (up, inf), "adjacent2"}); out.push_back ({std::nextafter (up, inf), a, "adjacent2"});
+            out.push_back ({a, a, "equal"});
+            out.push_back ({-m, m, "symmetric"}); out.push_back ({m, -m, "symmetric"});
+        }
+    out.push_back ({L::max (), L::max (), "equal"}); out.push_back ({-L::max (), -L::max (), "equal"});
+    out.push_back ({T (0), T (0), "equal"}); out.push_back ({-T (0), -T (0), "equal"});
+    out.push_back ({L::lowest (), L::max (), "extreme"}); out.push_back ({L::max (), L::lowest (), "extreme"});
+    out.push_back ({-L::min (), L::min (), "extreme"}); out.push_back ({-L::denorm_min (), L::denorm_min (), "extreme"});
+    out.push_back ({L::denorm_min (), L::max (), "extreme"}); out.push_back ({L::lowest (), -L::denorm_min (), "extreme"});
+    out.push_back ({T (0), L::max (), "extreme"}); out.push_back ({L::lowest (), T (0), "extreme"});
+    std::vector<Pair<T>> fin;
+    for (auto& p : out) if (std::isfinite (p.a) && std::isfinite (p.b)) fin.push_back (p);
+    return fin;
+}
+
+struct ExactStat
+{
+    uint64_t    n = 0, valueMismatch = 0, stateMismatch = 0, nonfinite = 0, outside = 0;
+    long double maxExcEndpointUlp = 0, maxExcResultUlp = 0, maxExcWidth = 0;
+    std::string firstBad, worst;
+};
+
+// one evaluation: r is advanced by the member, r2 (a copy) by nextf () + the formula of the property
+template <class T, class Rand> static void exactOne (Rand& r, T a, T b, std::map<std::string, ExactStat>& st, const char* cls)
+{
+    ExactStat& s = st[cls];
+    Rand r2 = r;
+    T             f   = (T) r2.nextf ();
+    volatile T    om  = 1 - f;
+    volatile T    p1  = a * om;
+    volatile T    p2  = b * f;
+    volatile T    e   = p1 + p2;
+    T             got = r.nextf (a, b);
+    ++s.n;
+    if (!sameBitsT<T> (got, (T) e))
+    {
+        if (!s.valueMismatch)
+            s.firstBad = "a=" + bitsOf (a) + " b=" + bitsOf (b) + " f=" + bitsOf (f) + " member=" + bitsOf (got) + " formula=" + bitsOf ((T) e);
+        ++s.valueMismatch;
+    }
+    if (memcmp ((const void*) &r, (const void*) &r2, sizeof (Rand)) != 0)
+    {
+        if (!s.stateMismatch && s.firstBad.empty ()) s.firstBad = "a=" + bitsOf (a) + " b=" + bitsOf (b) + " state-after-differs";
+        ++s.stateMismatch;
+    }
+    if (!std::isfinite (got))
+    {
+        if (!s.nonfinite && s.firstBad.empty ()) s.firstBad = "a=" + bitsOf (a) + " b=" + bitsOf (b) + " f=" + bitsOf (f) + " nonfinite=" + bitsOf (got);
+        ++s.nonfinite;
+        return;
+    }
+    T lo = std::min (a, b), hi = std::max (a, b);
+    long double exc = 0;
+    if (got < lo) exc = (long double) lo - (long double) got;
+    if (got > hi) exc = (long double) got - (long double) hi;
+    if (exc > 0)
+    {
+        ++s.outside;
+        long double ue = exc / (long double) ulpOf<T> (std::max (std::fabs (a), std::fabs (b)));
+        long double ur = exc / (long double) ulpOf<T> (got);
+        long double w  = (long double) hi - (long double) lo;
+        if (ue > s.maxExcEndpointUlp) { s.maxExcEndpointUlp = ue; s.worst = "a=" + bitsOf (a) + " b=" + bitsOf (b) + " f=" + bitsOf (f) + " r=" + bitsOf (got); }
+        if (ur > s.maxExcResultUlp) s.maxExcResultUlp = ur;
+        if (w > 0 && exc / w > s.maxExcWidth) s.maxExcWidth = exc / w;
+    }
+}
+
+static void printExact (const char* name, const std::map<std::string, ExactStat>& st)
+{
+    for (auto& kv : st)
+    {
+        const ExactStat& s = kv.second;
+        printf ("exact %s class=%s n=%llu value_mismatch=%llu state_mismatch=%llu nonfinite=%llu outside=%llu max_exc_endpoint_ulp=%.4Lf "
+                "max_exc_result_ulp=%.4Lf max_exc_over_width=%.4Lf first_bad=[%s] worst=[%s]\n",
+                name, kv.first.c_str (), (unsigned long long) s.n, (unsigned long long) s.valueMismatch, (unsigned long long) s.stateMismatch,
+                (unsigned long long) s.nonfinite, (unsigned long long) s.outside, s.maxExcEndpointUlp, s.maxExcResultUlp, s.maxExcWidth,
+                s.firstBad.c_str (), s.worst.c_str ());
+    }
+}
+
+// Rand48 object whose NEXT value is x1 (state = preimage of x1 under the LCG step, planted by memcpy)
+static IM::Rand48 rand48Before (uint64_t x1)
+{
+    const uint64_t ainv = 0xdfe05bcb1365ull; // 0x5deece66d^-1 mod 2^48
+    uint64_t       x    = ((x1 - 0xb) * ainv) & 0xffffffffffffull;
+    unsigned short s[3];
+    unpack (x, s);
+    IM::Rand48 r;
+    memcpy ((void*) &r, s, 6);
+    return r;
+}
+// Rand32 object whose NEXT state has the given low 32 bits
+static IM::Rand32 rand32Before (uint32_t next)
+{
+    const uint32_t ainv = 4276115653u; // 1664525^-1 mod 2^32
+    unsigned long  st   = (unsigned long) (uint32_t) ((next - 1013904223u) * ainv);
+    IM::Rand32 r;
+    memcpy ((void*) &r, &st, sizeof st);
+    return r;
+}
+
+static void rangeExact (uint64_t seed, int draws, int sweepPairs)
+{
+    {
+        std::map<std::string, ExactStat> st;
+        IM::Rand32 r (seed);
+        for (auto& p : endpointPairs<float> ())
+            for (int k = 0; k < draws; ++k) exactOne<float, IM::Rand32> (r, p.a, p.b, st, p.cls);
+        // every one of the 2^23 values of f for special pairs (the low 23 bits of the new state ARE the fraction)
+        typedef std::numeric_limits<float> L;
+        const float mx = L::max (), one = 1.0f;
+        std::vector<Pair<float>> sp = {{mx, mx, "sweep-all-f:max,max"}, {L::lowest (), mx, "sweep-all-f:lowest,max"},
+                                       {one, std::nextafter (one, 2.0f), "sweep-all-f:1,1+ulp"}, {one, one, "sweep-all-f:1,1"}, {-one, one, "sweep-all-f:-1,1"},
+                                       {L::denorm_min (), 3 * L::denorm_min (), "sweep-all-f:subnormal"},
+                                       {std::nextafter (mx, 0.0f), mx, "sweep-all-f:max-ulp,max"}, {0.1f, 0.1f, "sweep-all-f:0.1,0.1"},
+                                       {mx, L::lowest (), "sweep-all-f:max,lowest"}, {3.0f, -7.0f, "sweep-all-f:3,-7"},
+                                       {L::min (), std::nextafter (L::min (), 0.0f), "sweep-all-f:min,min-ulp"}};
+        for (int q = 0; q < sweepPairs && q < (int) sp.size (); ++q)
+            for (uint32_t m = 0; m < (1u << 23); ++m)
+            {
+                IM::Rand32 g = rand32Before (m | ((uint32_t) mix (seed, m) << 23));
+                exactOne<float, IM::Rand32> (g, sp[q].a, sp[q].b, st, sp[q].cls);
+            }
+        printExact ("Rand32", st);
+    }
+    {
+        std::map<std::string, ExactStat> st;
+        IM::Rand48 r (seed);
+        auto pairs = endpointPairs<double> ();
+        for (auto& p : pairs)
+            for (int k = 0; k < draws; ++k) exactOne<double, IM::Rand48> (r, p.a, p.b, st, p.cls);
+        // boundary values of f: successor values 0, 1, 2^48-1, 2^47, 2^44 +- 1, ... planted through the preimage state
+        static const uint64_t succ[] = {0ull, 1ull, 0xffffffffffffull, 0xfffffffffffeull, 1ull << 47, (1ull << 47) - 1, (1ull << 47) + 1, 1ull << 44,
+                                        (1ull << 44) - 1, 1ull << 46, 3ull << 46, 0x555555555555ull, 0xaaaaaaaaaaaaull, 1ull << 24, 0xffffff000000ull};
+        for (auto& p : pairs)
+            for (uint64_t x1 : succ)
+            {
+                IM::Rand48 g = rand48Before (x1);
+                exactOne<double, IM::Rand48> (g, p.a, p.b, st, (std::string ("boundary-f:") + p.cls).c_str ());
+            }
+        printExact ("Rand48", st);
+    }
+}
+
+// ---------------------------------------------------------------- determinism: no dependence on prior storage contents
+template <class Rand> static void outputsOf (Rand& r, uint64_t out[6]);
+template <> void outputsOf<IM::Rand48> (IM::Rand48& r, uint64_t out[6])
+{
+    out[0] = (uint64_t) r.nexti (); out[1] = r.nextb (); out[2] = d2u (r.nextf ()); out[3] = d2u (r.nextf (-1, 1));
+    out[4] = (uint64_t) r.nexti (); out[5] = d2u (r.nextf ());
+}
+template <> void outputsOf<IM::Rand32> (IM::Rand32& r, uint64_t out[6])
+{
+    out[0] = (uint64_t) r.nexti (); out[1] = r.nextb (); out[2] = f2u (r.nextf ()); out[3] = f2u (r.nextf (-1, 1));
+    out[4] = (uint64_t) r.nexti (); out[5] = f2u (r.nextf ());
+}
+
+template <class Rand> static void determinismOf (const char* name, uint64_t seed, int nseeds)
+{
+    uint64_t n = 0, bad = 0, badBytes = 0;
+    std::string first;
+    const size_t N = sizeof (Rand);
+    static const uint64_t fixedSeeds[10] = {0ull, 1ull, 0xffffffffull, 0xffffffffffffffffull, 0x80000000ull, 0x7fffffffull, 0x5a5a5a5aull, 0xa5a573a5ull,
+                                            0x100000000ull, 0xffff0000ull};
+    for (int k = 0; k < nseeds; ++k)
+    {
+        uint64_t sd = k < 10 ? fixedSeeds[k] : mix (seed, 3000000 + k);
+        unsigned char refBytes[16] = {0};
+        uint64_t      ref[6]       = {0};
+        // fills: what the object's storage holds BEFORE init (seed) / the constructor runs
+        for (int fill = 0; fill < 6; ++fill)
+        {
+            unsigned char pre[16];
+            for (size_t i = 0; i < N; ++i) pre[i] = fill == 0 ? 0x00 : fill == 1 ? 0xff : fill == 2 ? 0xa5 : (unsigned char) (mix (seed + fill, k * 16 + i) & 0xff);
+            for (int how = 0; how < 3; ++how)
+            {
+                alignas (16) unsigned char buf[16];
+                unsigned char              after[16] = {0};
+                uint64_t                   out[6];
+                if (how == 0)
+                {
+                    // init () on a live object whose bytes were overwritten
+                    Rand r (sd ^ 0x1234567ull);
+                    memcpy ((void*) &r, pre, N);
+                    r.init ((unsigned long) sd);
+                    memcpy (after, (const void*) &r, N);
+                    outputsOf<Rand> (r, out);
+                }
+                else if (how == 1)
+                {
+                    // constructor in storage with known prior contents (harness built with -fno-lifetime-dse)
+                    memcpy (buf, pre, N);
+                    Rand* r = new (buf) Rand ((unsigned long) sd);
+                    memcpy (after, (const void*) r, N);
+                    outputsOf<Rand> (*r, out);
+                }
+                else
+                {
+                    // re-init after use: another seed, some draws, then init (sd)
+                    Rand     r ((unsigned long) (sd * 2654435761ull + fill));
+                    uint64_t junk[6];
+                    outputsOf<Rand> (r, junk);
+                    r.init ((unsigned long) sd);
+                    memcpy (after, (const void*) &r, N);
+                    outputsOf<Rand> (r, out);
+                }
+                if (fill == 0 && how == 0) { memcpy (refBytes, after, N); memcpy (ref, out, sizeof ref); }
+                ++n;
+                bool b1 = memcmp (after, refBytes, N) != 0, b2 = memcmp (out, ref, sizeof ref) != 0;
+                if (b1) ++badBytes;
+                if (b1 || b2)
+                {
+                    if (!bad)
+                    {
+                        char t[300];
+                        snprintf (t, sizeof t, "seed=%llx prior_fill=%d how=%s object_bytes_differ=%d outputs_differ=%d", (unsigned long long) sd, fill,
+                                  how == 0 ? "init-on-overwritten-object" : how == 1 ? "constructor-in-filled-storage" : "re-init-after-use", (int) b1, (int) b2);
+                        first = t;
+                    }
+                    ++bad;
+                }
+            }
+        }
+    }
+    // default constructor argument: Rand () == Rand (0)
+    uint64_t dbad = 0;
+    {
+        Rand     d, z (0ul);
+        uint64_t a[6], b[6];
+        bool     bytes = memcmp ((const void*) &d, (const void*) &z, N) != 0;
+        outputsOf<Rand> (d, a); outputsOf<Rand> (z, b);
+        if (bytes || memcmp (a, b, sizeof a) != 0) { ++dbad; if (first.empty ()) first = "default-constructed object differs from seed 0"; }
+    }
+    printf ("determinism %s n=%llu bad=%llu object_bytes_differ=%llu default_ctor_bad=%llu first=[%s]\n", name, (unsigned long long) n,
+            (unsigned long long) bad, (unsigned long long) badBytes, (unsigned long long) dbad, first.c_str ());
+}
+
+// ---------------------------------------------------------------- the sampler templates with a scripted generator as `Rand`
+struct ScriptExhausted {};
+template <class T> struct ScriptGen
+{
+    std::vector<T> d;
+    size_t         k = 0;
+    int            badRange = 0;
+    T nextf (T lo, T hi)
+    {
+        if (!(lo == T (-1) && hi == T (1))) ++badRange;
+        if (k >= d.size ()) throw ScriptExhausted ();
+        return d[k++];
+    }
+};
+
+struct ScriptStat
+{
+    uint64_t n = 0, bad = 0, accepted = 0, rejected = 0, zeroCand = 0, unitCand = 0;
+    std::string first;
+    void fail (const std::string& what) { if (!bad) first = what; ++bad; }
+};
+
+template <class V> static std::string candStr (const char* fn, const int* k, int den)
+{
+    std::string s = std::string (fn) + " candidate=(";
+    for (unsigned i = 0; i < V::dimensions (); ++i) s += (i ? "," : "") + std::to_string (k[i]) + "/" + std::to_string (den);
+    return s + ")";
+}
+
+// all candidates (k_i / den), k_i in [-den-1, den+1], followed by the fallback candidate (1/2, 0, ..): exact integer spec of the
+// loop decision, result compared bit for bit with candidate / candidate.length () (hollow) or the candidate itself (solid)
+template <class V> static void scriptSphere (const char* name, int den)
+{
+    typedef typename V::BaseType T;
+    const int  N = (int) V::dimensions ();
+    ScriptStat so, ho;
+    int        k[4] = {0, 0, 0, 0};
+    const int  lo = -den - 1, hi = den + 1, span = hi - lo + 1;
+    long       total = 1;
+    for (int i = 0; i < N; ++i) total *= span;
+    for (long idx = 0; idx < total; ++idx)
+    {
+        long q = idx;
+        long l2num = 0; // sum k_i^2, length2 = l2num / den^2 exactly (also in T: small dyadics for den a power of two)
+        for (int i = 0; i < N; ++i) { k[i] = lo + (int) (q % span); q /= span; l2num += (long) k[i] * k[i]; }
+        V cand, fb (T (0));
+        for (int i = 0; i < N; ++i) cand[i] = T (k[i]) / T (den);
+        fb[0] = T (0.5);
+        std::vector<T> script;
+        for (int i = 0; i < N; ++i) script.push_back (cand[i]);
+        for (int i = 0; i < N; ++i) script.push_back (fb[i]);
+        const long d2 = (long) den * den;
+        {
+            // solidSphereRand: accept iff length2 <= 1
+            ScriptGen<T> g{script};
+            ++so.n;
+            bool acc = l2num <= d2;
+            try
+            {
+                V r = IM::solidSphereRand<V> (g);
+                V e = acc ? cand : fb;
+                bool same = true;
+                for (int i = 0; i < N; ++i) same = same && sameBitsT<T> (r[i], e[i]);
+                if (!same || g.k != (size_t) (acc ? N : 2 * N) || g.badRange) so.fail (candStr<V> ("solidSphereRand", k, den) + (acc ? " expected=accept" : " expected=retry") + " draws_consumed=" + std::to_string (g.k) + (g.badRange ? " wrong-range" : ""));
+            }
+            catch (ScriptExhausted&) { so.fail (candStr<V> ("solidSphereRand", k, den) + " loop did not stop on the fallback candidate"); }
+            acc ? ++so.accepted : ++so.rejected;
+            if (l2num == 0) ++so.zeroCand;
+            if (l2num == d2) ++so.unitCand;
+        }
+        {
+            // hollowSphereRand: accept iff 0 < length <= 1; result candidate / length
+            ScriptGen<T> g{script};
+            ++ho.n;
+            bool acc = l2num <= d2 && l2num != 0;
+            try
+            {
+                V r = IM::hollowSphereRand<V> (g);
+                V c = acc ? cand : fb;
+                T len = c.length ();
+                bool same = true;
+                for (int i = 0; i < N; ++i) same = same && sameBitsT<T> (r[i], T (c[i] / len));
+                if (!same || g.k != (size_t) (acc ? N : 2 * N) || g.badRange) ho.fail (candStr<V> ("hollowSphereRand", k, den) + (acc ? " expected=accept" : " expected=retry") + " draws_consumed=" + std::to_string (g.k) + (g.badRange ? " wrong-range" : ""));
+            }
+            catch (ScriptExhausted&) { ho.fail (candStr<V> ("hollowSphereRand", k, den) + " loop did not stop on the fallback candidate"); }
+            acc ? ++ho.accepted : ++ho.rejected;
+            if (l2num == 0) ++ho.zeroCand;
+            if (l2num == d2) ++ho.unitCand;
+        }
+    }
+    printf ("script solidSphereRand %s n=%llu bad=%llu accepted=%llu rejected=%llu zero_candidates=%llu unit_length_candidates=%llu first=[%s]\n", name,
+            (unsigned long long) so.n, (unsigned long long) so.bad, (unsigned long long) so.accepted, (unsigned long long) so.rejected,
+            (unsigned long long) so.zeroCand, (unsigned long long) so.unitCand, so.first.c_str ());
+    printf ("script hollowSphereRand %s n=%llu bad=%llu accepted=%llu rejected=%llu zero_candidates=%llu unit_length_candidates=%llu first=[%s]\n", name,
+            (unsigned long long) ho.n, (unsigned long long) ho.bad, (unsigned long long) ho.accepted, (unsigned long long) ho.rejected,
+            (unsigned long long) ho.zeroCand, (unsigned long long) ho.unitCand, ho.first.c_str ());
+}
+
+// gaussRand on the lattice (kx/den, ky/den), fallback (1/2, 1/4): iterations (exact integer spec: accept iff 0 < x^2+y^2 < 1)
+// and the value against x * sqrt (-2 ln l / l) in long double (2 float ulps), |value| <= 15 (Props/C18.lean gaussRand_real_bound)
+template <class T> static void scriptGauss (const char* name, int den, bool lines)
+{
+    ScriptStat st;
+    long double maxAbs = 0;
+    for (int kx = -den - 1; kx <= den + 1; ++kx)
+        for (int ky = -den - 1; ky <= den + 1; ++ky)
+        {
+            ScriptGen<T> g{{T (kx) / T (den), T (ky) / T (den), T (0.5), T (0.25)}};
+            long         l2 = (long) kx * kx + (long) ky * ky, d2 = (long) den * den;
+            bool         acc = l2 < d2 && l2 != 0;
+            ++st.n;
+            acc ? ++st.accepted : ++st.rejected;
+            if (l2 == 0) ++st.zeroCand;
+            if (l2 == d2) ++st.unitCand;
+            try
+            {
+                float       v = IM::gaussRand (g);
+                long double x = acc ? (long double) kx / den : 0.5L, y = acc ? (long double) ky / den : 0.25L, l = x * x + y * y;
+                long double e = x * sqrtl (-2 * logl (l) / l);
+                float       ef = (float) e;
+                long double tol = 2 * (long double) ulpOf<float> (ef == 0 ? std::numeric_limits<float>::min () : ef);
+                bool        okv = std::isfinite (v) && fabsl ((long double) v - e) <= tol && std::fabs (v) <= 15.0f;
+                if (lines) printf ("G %d %d %zu\n", kx, ky, g.k / 2);
+                if (std::fabs ((long double) v) > maxAbs) maxAbs = std::fabs ((long double) v);
+                if (!okv || g.k != (size_t) (acc ? 2 : 4) || g.badRange)
+                {
+                    char t[300];
+                    snprintf (t, sizeof t, "gaussRand candidate=(%d/%d,%d/%d) expected=%s draws_consumed=%zu value=%08x expected_value=%08x%s", kx, den, ky, den,
+                              acc ? "accept" : "retry", g.k, f2u (v), f2u (ef), g.badRange ? " wrong-range" : "");
+                    st.fail (t);
+                }
+            }
+            catch (ScriptExhausted&)
+            {
+                if (lines) printf ("G %d %d 0\n", kx, ky);
+                st.fail ("gaussRand candidate=(" + std::to_string (kx) + "/" + std::to_string (den) + "," + std::to_string (ky) + "/" + std::to_string (den) + ") loop did not stop on the fallback candidate");
+            }
+        }
+    if (!lines)
+        printf ("script gaussRand %s n=%llu bad=%llu accepted=%llu rejected=%llu zero_candidates=%llu unit_length_candidates=%llu max_abs=%.6Lf first=[%s]\n", name,
+                (unsigned long long) st.n, (unsigned long long) st.bad, (unsigned long long) st.accepted, (unsigned long long) st.rejected,
+                (unsigned long long) st.zeroCand, (unsigned long long) st.unitCand, maxAbs, st.first.c_str ());
+}
+
+// gaussSphereRand = hollowSphereRand (rand) * gaussRand (rand): the order in which the two operands draw is unspecified in
+// C++ (both orders are accepted; which one this compiler chose is reported)
+template <class V> static void scriptGaussSphere (const char* name)
+{
+    typedef typename V::BaseType T;
+    const int  N = (int) V::dimensions ();
+    ScriptStat st;
+    int        hollowFirst = 0, gaussFirst = 0;
+    static const double cands[6][4] = {{0.5, 0.25, -0.25, 0.125}, {-0.75, 0.5, 0.125, 0}, {0.25, 0, 0, 0}, {0, -0.5, 0.5, 0.25}, {1, 0, 0, 0}, {0.375, -0.625, 0.25, 0.125}};
+    static const double gc[3][2]    = {{0.5, 0.25}, {-0.125, 0.75}, {0.25, -0.0625}};
+    for (auto& c : cands)
+        for (auto& gq : gc)
+        {
+            V h;
+            for (int i = 0; i < N; ++i) h[i] = T (c[i]);
+            if (!(h.length () <= 1) || h.length () == 0) continue;
+            ++st.n;
+            ScriptGen<T> ga{{}}, gb{{}};
+            for (int i = 0; i < N; ++i) ga.d.push_back (h[i]);
+            ga.d.push_back (T (gq[0])); ga.d.push_back (T (gq[1]));          // hollow draws first
+            gb.d.push_back (T (gq[0])); gb.d.push_back (T (gq[1]));
+            for (int i = 0; i < N; ++i) gb.d.push_back (h[i]);               // gauss draws first
+            ScriptGen<T> g1{{T (gq[0]), T (gq[1])}};
+            float        gv = IM::gaussRand (g1);
+            V            e  = (h / h.length ()) * gv;
+            bool okA = false, okB = false;
+            try { V r = IM::gaussSphereRand<V> (ga); okA = ga.k == ga.d.size (); for (int i = 0; i < N; ++i) okA = okA && sameBitsT<T> (r[i], e[i]); } catch (ScriptExhausted&) {}
+            try { V r = IM::gaussSphereRand<V> (gb); okB = gb.k == gb.d.size (); for (int i = 0; i < N; ++i) okB = okB && sameBitsT<T> (r[i], e[i]); } catch (ScriptExhausted&) {}
+            if (okA) ++hollowFirst;
+            if (okB) ++gaussFirst;
+            if (!okA && !okB) st.fail ("gaussSphereRand is not hollowSphereRand (rand) * gaussRand (rand) on a scripted generator (either draw order)");
+        }
+    printf ("script gaussSphereRand %s n=%llu bad=%llu hollow_draws_first=%d gauss_draws_first=%d first=[%s]\n", name, (unsigned long long) st.n,
+            (unsigned long long) st.bad, hollowFirst, gaussFirst, st.first.c_str ());
+}
+
 int main (int argc, char** argv)
 {
     std::string cmd = argc > 1 ? argv[1] : "";
@@ -457,6 +914,31 @@ int main (int argc, char** argv)
         samplerResidue<IM::V2d, IM::Rand48> ("V2d/Rand48", seed, nseeds, per);
         samplerResidue<IM::V3d, IM::Rand48> ("V3d/Rand48", seed, nseeds, per);
         samplerResidue<IM::V4d, IM::Rand48> ("V4d/Rand48", seed, nseeds, per);
+        return 0;
+    }
+    if (cmd == "rangeExact" && argc == 5)
+    {
+        rangeExact (strtoull (argv[2], 0, 10), atoi (argv[3]), atoi (argv[4]));
+        return 0;
+    }
+    if (cmd == "determinism" && argc == 4)
+    {
+        determinismOf<IM::Rand48> ("Rand48", strtoull (argv[2], 0, 10), atoi (argv[3]));
+        determinismOf<IM::Rand32> ("Rand32", strtoull (argv[2], 0, 10), atoi (argv[3]));
+        return 0;
+    }
+    if (cmd == "script")
+    {
+        scriptSphere<IM::V2f> ("V2f", 8); scriptSphere<IM::V3f> ("V3f", 4); scriptSphere<IM::V4f> ("V4f", 4);
+        scriptSphere<IM::V2d> ("V2d", 8); scriptSphere<IM::V3d> ("V3d", 4); scriptSphere<IM::V4d> ("V4d", 4);
+        scriptGauss<float> ("float-draws", 8, false); scriptGauss<double> ("double-draws", 8, false);
+        scriptGaussSphere<IM::V2f> ("V2f"); scriptGaussSphere<IM::V3f> ("V3f"); scriptGaussSphere<IM::V4f> ("V4f");
+        scriptGaussSphere<IM::V2d> ("V2d"); scriptGaussSphere<IM::V3d> ("V3d"); scriptGaussSphere<IM::V4d> ("V4d");
+        return 0;
+    }
+    if (cmd == "gaussLattice")
+    {
+        scriptGauss<double> ("double-draws", 8, true);
         return 0;
     }
     fprintf (stderr, "usage: rand48_corr sweep seed nblocks | dump seed lo hi | sweepc seed nblocks | dumpc seed lo hi | seq | residue seed draws nseeds\n");
